@@ -82,3 +82,34 @@ Definition run_validfile (e : sexp) : option sexp :=
       option_map (fun ts => SList (map (fun t => show_bool (valid_task t)) ts ++ [Atom "file"; show_bool (valid_file ts)])) (map_opt read_rawtask ts)
   | _ => None
   end.
+
+(* (validvals (W C K) ...) with W, C, K in null | bool | num | str | map | (seq ...) -> (t|f ...) : are the values of when /
+   changed_when / check_mode readable (task/valid.rs::get_task) *)
+Fixpoint read_yv (fuel : nat) (e : sexp) : option yv :=
+  match fuel with
+  | O => None
+  | S f =>
+      match e with
+      | Atom "null" => Some YNull
+      | Atom "bool" => Some YBool
+      | Atom "num" => Some YNum
+      | Atom "str" => Some YStr
+      | Atom "map" => Some YMap
+      | SList (Atom "seq" :: l) => option_map YSeq (map_opt (read_yv f) l)
+      | _ => None
+      end
+  end.
+Definition read_taskvals (e : sexp) : option taskvals :=
+  match e with
+  | SList [w; c; k] =>
+      match read_yv 6 w, read_yv 6 c, read_yv 6 k with
+      | Some w, Some c, Some k => Some {| v_when := w; v_changed_when := c; v_check_mode := k |}
+      | _, _, _ => None
+      end
+  | _ => None
+  end.
+Definition run_validvals (e : sexp) : option sexp :=
+  match e with
+  | SList (Atom "validvals" :: l) => option_map (fun l => SList (map (fun tv => show_bool (values_ok tv)) l)) (map_opt read_taskvals l)
+  | _ => None
+  end.
